@@ -29,3 +29,17 @@ ENTRY = {
         "the link JSON leaf -> Go struct field is by equal json tag path (plus the alias table); the codecs themselves are tested (round trip, alterations), not proved",
     ],
 }
+
+# Fourth session: deposit messages / deposit data / builder registrations (eth2util/deposit, eth2util/registration,
+# Lock.verifyBuilderRegistrations) modelled bit-exactly: Model/DepositReg.lean, theorems Props/C12Deposit.lean, stream deposit.
+from vlib import snippet_C12deposit as _dep
+ENTRY["streams"] = ENTRY["streams"] + [_dep.STREAM]
+ENTRY.setdefault("lean_props_extra", []).append(_dep.EXTRA_LEAN)
+ENTRY["monitor_sigs"] = ENTRY["monitor_sigs"] + _dep.MONITOR_SIGS
+ENTRY["trusted_base"] = ENTRY["trusted_base"] + _dep.TRUSTED_BASE
+ENTRY["assumptions"] = ENTRY["assumptions"] + _dep.ASSUMPTIONS + [
+    "VerifyDepositAmounts sums into a wrapping uint64 (a false rejection that needs more than 9 007 199 amounts): not a clause of "
+    "C12; modelled as the code is (verify_amounts_accepts_iff, verify_amounts_sum_wrap_witness, verify_amounts_spec_partial), "
+    "counted by the stream as observed:amounts_sum_wraps_uint64; candidate hardening fixes/C12-deposit-amounts-sum-wrap.diff "
+    "(verify_amounts_spec_fixed)"]
+ENTRY["level_text"] += _dep.LEVEL_TEXT
